@@ -81,7 +81,14 @@ def check_delay_sign(prog: Program, res: Result, rule: str, only: set[str] | Non
             D = Poly.sym("self.header.get_dmdelays(dm)")
             lead = (D - p).canon()
             key = f"{f.qualname}:{kname}:delay-sign"
-            shifted = (lead.startswith("min(0, ") and ".min()" in lead and "get_dmdelays" in lead) or lead == "self.header.get_dmdelays(dm).min()"
+            # the lead is a scalar derived from the minimum of those very delays: min(0, D.min()), np.minimum(0, D.min()), D.min(), int(...) of those
+            core = lead
+            for pre in ("int(", "np.int32(", "np.int64("):
+                if core.startswith(pre) and core.endswith(")"):
+                    core = core[len(pre):-1]
+            dmin = ("self.header.get_dmdelays(dm).min()", "np.min(self.header.get_dmdelays(dm))", "int(self.header.get_dmdelays(dm).min())",
+                    "int(np.min(self.header.get_dmdelays(dm)))", "min(self.header.get_dmdelays(dm))")
+            shifted = core in dmin or any(core in (f"min(0, {m})", f"min({m}, 0)", f"np.minimum(0, {m})", f"np.minimum({m}, 0)") for m in dmin)
             if shifted:
                 res.ok(rule, f, c, f"the delays handed to {kname} are counted from the earliest channel (get_dmdelays(dm) - {lead}): none is negative", key=key)
             else:
